@@ -182,6 +182,8 @@ def run(ctx):
              "created per matcher", floor=1)
     run.rule("C13.R6", "no load-phase function stores to a module global, a "
              "class attribute or a mutable default argument")
+    run.rule("C13.R8", "schema type objects are constructed with their own "
+             "empty containers (constructors == reference)", floor=3)
     run.rule("C13.R7", "createDerivedSchema copies into the new schema's own "
              "containers (no field aliasing)")
 
@@ -426,6 +428,17 @@ def run(ctx):
               "none written in %d load-reachable functions (positive control "
               "matched)" % len(reach), "process-wide writes present",
               nontrivial=False)
+
+    # R8: every type object starts with its own, empty containers (a shared
+    # default container would carry one schema's types into the next)
+    for q, ref in ((INF + ".SectionType.__init__", "sectiontype_init"),
+                   (INF + ".SchemaType.__init__", "schematype_init"),
+                   (INF + ".AbstractType.__init__", "abstracttype_init")):
+        crosscheck(ctx, "C13.R8", q, RI, ref, q.rsplit(".", 1)[0],
+                   "fresh containers per instance")
+    crosscheck(ctx, "C13.R2", INF + ".SectionType.gettypenames", RI,
+               "gettypenames", INF + ".SectionType",
+               "a new list of the type names")
 
     # R7
     crosscheck(ctx, "C13.R7", INF + ".createDerivedSchema", RI,
